@@ -98,7 +98,8 @@ CLAIM = dict(
     text='Memory safety is decided by CBMC on the units the anchors name, with arbitrary input: every re2c scanner (via its LLVM IR) reads only inside '
          'the NUL-terminated buffer for ALL byte strings within the bound; the token primitives leave no freed object reachable (pool disabled); the '
          'string kernels, attribute/table/look-around code run under the built-in pointer, bounds, overflow and shift checks with exact-size buffers. '
-         'No functional oracle is needed: the obligation is that no check fires.',
+         'No functional oracle is needed: the obligation is that no check fires.  The same holds for the fenced-code cases of all five writers on blocks of 1..3 '
+         'arbitrary lines, the image-dimension helpers, the TextBundle image-url copy and the private source copy every entry point makes.',
     note='trusted: CBMC, clang IR + ir2c translation (validated natively each run against the real functions); bounds per harness (N<=3-6 bytes, K<=3-4 tokens); whole-pipeline runs are out of reach',
     technique='CBMC bounded model checking (built-in memory-safety checks) of real units and of IR-derived scanners on symbolic NUL-terminated buffers',
     engine='ir2c+cbmc',
